@@ -1130,3 +1130,180 @@ func (e *engineA) honeypot(cl *Cluster, id uint64) *memnet.Listener {
 	}()
 	return lis
 }
+
+func init() { scenarios["install-crash"] = scenInstallCrash }
+
+// scenInstallCrash (C10 / C09): a follower that holds a non-empty log which
+// ends before the leader's snapshot index is brought back by snapshot
+// installation and is killed inside the installation: after the snapshot was
+// published but before the log was dealt with (install.stored), or right
+// after (install.logHandled), or inside the log reset. The restart must give
+// a snapshot and a log that fit together, and the node must be brought up to
+// date again by the same leader.
+func scenInstallCrash(e *engineA) error {
+	e.prof = profiles["snapshot"]
+	if err := e.boot(3); err != nil {
+		return err
+	}
+	e.cl.startInfoSampler(e.hb() / 2)
+	l := e.cl.leader()
+	if l == nil {
+		return fmt.Errorf("no leader")
+	}
+	pad := 90 + 10*e.rng.Intn(4)
+	for i := 0; i < 3+e.rng.Intn(20); i++ {
+		e.cl.fsmOpPad(1, l, "update", pad)
+	}
+	f := e.others(l)[e.rng.Intn(2)]
+	pts := []string{"install.stored", "install.stored", "install.logHandled", "log.reset.each", "log.reset.created", "clearLog"}
+	pt := pts[e.rng.Intn(len(pts))]
+	e.rc.emit(&ev.Rec{K: "fault", Op: "install-crash at " + pt, Nid: f.nid})
+	e.isolate(f, true)
+	for i := 0; i < 15+e.rng.Intn(40); i++ {
+		if r := e.cl.fsmOpPad(1, l, "update", pad); !r.ok {
+			break
+		}
+	}
+	e.sleepHB(3, 5)
+	e.cl.takeSnapshot(l, 0)
+	e.waitFor(30, func() bool {
+		info, ok := l.info(false)
+		return ok && info.FirstLogIndex > 4
+	})
+	for i := 0; i < e.rng.Intn(6); i++ {
+		e.cl.fsmOpPad(1, l, "update", pad)
+	}
+	occ := 1
+	if pt == "log.reset.each" {
+		occ = 1 + e.rng.Intn(4)
+	}
+	e.pc.planCrash(f.dir, pt, occ)
+	e.isolate(f, false)
+	e.waitFor(60, func() bool { return f.isCrashed() })
+	e.sleepHB(1, 3)
+	e.cl.recoverCrashed()
+	e.startClients(2, map[string]int{"update": 3, "read": 1})
+	e.sleepHB(6, 10)
+	return e.finish()
+}
+
+func init() { scenarios["bootstrap-crash"] = scenBootstrapCrash }
+
+// scenBootstrapCrash (C10): the node that is given the initial configuration
+// is killed inside the bootstrap (entry appended / flushed / term stored);
+// it restarts on the image and the cluster is bootstrapped again if the
+// restarted node does not know a configuration. Either way the cluster must
+// come up and the node's storage must be usable.
+func scenBootstrapCrash(e *engineA) error {
+	e.prof = profiles["general"]
+	ids := []uint64{1, 2, 3}
+	e.ids = ids
+	for _, id := range ids {
+		if _, err := e.cl.start(id, e.cl.dirOf(id)); err != nil {
+			return err
+		}
+	}
+	e.cl.startTicker()
+	e.tickCounter()
+	pts := []string{"bootstrap.appended", "bootstrap.flushed", "bootstrap.termset", "seg.sync.data", "seg.sync.headerWritten", "seg.appended"}
+	pt := pts[e.rng.Intn(len(pts))]
+	n1 := e.cl.node(1)
+	e.rc.emit(&ev.Rec{K: "fault", Op: "bootstrap-crash at " + pt, Nid: 1})
+	e.pc.planCrash(n1.dir, pt, 1)
+	conf := raft.Config{Nodes: map[uint64]raft.Node{}}
+	for _, id := range ids {
+		if err := conf.AddVoter(id, e.cl.addrOf(id)); err != nil {
+			return err
+		}
+	}
+	e.cl.submitConfig(n1, "bootstrap", conf)
+	e.waitFor(10, func() bool { return n1.isCrashed() })
+	e.cl.recoverCrashed()
+	n1 = e.cl.node(1)
+	if n1 == nil {
+		return fmt.Errorf("node 1 did not come back")
+	}
+	if info, ok := n1.info(true); ok && len(info.Configs.Latest.Nodes) == 0 {
+		e.rc.emit(&ev.Rec{K: "fault", Op: "bootstrap-again", Nid: 1})
+		if err := e.cl.submitConfig(n1, "bootstrap", conf); err != nil {
+			return fmt.Errorf("second bootstrap: %v", err)
+		}
+	}
+	if l := e.cl.waitLeader(200 * e.hb()); l == nil {
+		return fmt.Errorf("no leader after bootstrap")
+	}
+	e.cl.startInfoSampler(e.hb() / 2)
+	e.startClients(2, map[string]int{"update": 3, "read": 1})
+	e.sleepHB(4, 8)
+	return e.finish()
+}
+
+func init() { scenarios["window-crash"] = scenWindowCrash }
+
+// scenWindowCrash (C10 / C09): kill a node inside the windows that random
+// arming rarely reaches. Mode 0: a snapshot is taken on a node with a log of
+// several segments and the node is killed while the snapshot is published or
+// while the log is compacted segment by segment. Mode 1: an isolated
+// ex-leader with an uncommitted tail of several segments is healed and
+// killed inside the truncation of that tail.
+func scenWindowCrash(e *engineA) error {
+	e.prof = profiles["snapshot"]
+	if err := e.boot(3); err != nil {
+		return err
+	}
+	e.cl.startInfoSampler(e.hb() / 2)
+	l := e.cl.leader()
+	if l == nil {
+		return fmt.Errorf("no leader")
+	}
+	pad := 90 + 10*e.rng.Intn(4)
+	var target *Node
+	for i := 0; i < 20+e.rng.Intn(40); i++ {
+		e.cl.fsmOpPad(1, l, "update", pad)
+	}
+	if e.rng.Intn(2) == 0 {
+		pts := []string{"snap.beforePublish", "snap.renamed", "snap.published", "compact", "log.removeLTE.each", "log.removeLTE.each", "fsm.beforeSnap"}
+		pt := pts[e.rng.Intn(len(pts))]
+		occ := 1
+		if pt == "log.removeLTE.each" {
+			occ = 1 + e.rng.Intn(4)
+		}
+		x := l
+		if e.rng.Intn(2) == 0 {
+			x = e.others(l)[0]
+		}
+		e.sleepHB(2, 3)
+		e.rc.emit(&ev.Rec{K: "fault", Op: "directed-crash at " + pt, Nid: x.nid})
+		target = x
+		e.pc.planCrash(x.dir, pt, occ)
+		go e.cl.takeSnapshot(x, 0)
+		e.waitFor(40, func() bool { return x.isCrashed() })
+	} else {
+		pts := []string{"removeGTE", "log.removeGTE.each", "log.removeGTE.each", "log.removeGTE.created", "seg.removeGTE.header"}
+		pt := pts[e.rng.Intn(len(pts))]
+		occ := 1
+		if pt == "log.removeGTE.each" {
+			occ = 1 + e.rng.Intn(3)
+		}
+		if _, err := e.staleTail(l, 3+e.rng.Intn(30), pad); err != nil {
+			return err
+		}
+		e.waitFor(20, func() bool {
+			info, ok := l.info(false)
+			return ok && info.State != raft.Leader
+		})
+		e.rc.emit(&ev.Rec{K: "fault", Op: "directed-crash at " + pt, Nid: l.nid})
+		target = l
+		e.pc.planCrash(l.dir, pt, occ)
+		e.isolate(l, false)
+		e.waitFor(60, func() bool { return l.isCrashed() })
+	}
+	e.sleepHB(1, 3)
+	if !target.isCrashed() {
+		e.pc.cancelCrash(target.dir)
+	}
+	e.cl.recoverCrashed()
+	e.startClients(2, map[string]int{"update": 3, "read": 1})
+	e.sleepHB(5, 9)
+	return e.finish()
+}
